@@ -114,7 +114,7 @@ def c01(tier):
     jobs = []
     for n, src in enumerate(srcs):
         opt = 1 if tier == 'quick' else n % 2
-        jobs.append((H('.', 'HarnessC01Template'), P('.'), None, {'params': {'src': src, 'optimize': 1, 'maxlen': 2 if tier == 'quick' else 3}, 'label': src, 'job_timeout': 120 if tier == 'quick' else 900}))
+        jobs.append((H('.', 'HarnessC01Template'), P('.'), None, {'params': {'src': src, 'optimize': 1, 'maxlen': 2 if (tier == 'quick' or 'Xss' in src) else 3}, 'label': src, 'job_timeout': 120 if tier == 'quick' else 900}))
         if tier != 'quick':
             jobs.append((H('.', 'HarnessC01Template'), P('.'), None, {'params': {'src': src, 'optimize': 0, 'maxlen': 2}, 'label': src}))
     meta = {
